@@ -43,13 +43,20 @@ def annotate_half(R, func, loop, axis, other_loops):
 
     def singleton(node):
         return isinstance(node, (ast.List, ast.Tuple)) and len(node.elts) == 1 and name_is(node.elts[0], x)
+    fkey = Env(func).expand(key, alias_only=True)
+
+    def raw_closure(node, cls_name, op):
+        """``context.<cls>.frommembers([x]).<op>()``: the same derivation on the bit vectors themselves."""
+        return (isinstance(node, ast.Call) and isinstance(node.func, ast.Attribute) and node.func.attr == op and not node.args and not node.keywords
+                and isinstance(node.func.value, ast.Call) and chain(node.func.value.func) == [p_ctx, cls_name, 'frommembers']
+                and len(node.func.value.args) == 1 and singleton(node.func.value.args[0]))
     if axis == 'objects':
         ok = (is_ext_call(key) and isinstance(key.args[0], ast.Call) and chain(key.args[0].func) == [p_ctx, 'intension']
               and len(key.args[0].args) == 1 and singleton(key.args[0].args[0])
-              and not any(k.arg == 'raw' and const(k.value) is True for k in key.args[0].keywords))
+              and not any(k.arg == 'raw' and const(k.value) is True for k in key.args[0].keywords)) or raw_closure(fkey, '_Objects', 'double')
         want = f'{p_map}[{p_ctx}.extension({p_ctx}.intension([{x}]), raw=True)]'
     else:
-        ok = is_ext_call(key) and singleton(key.args[0])
+        ok = (is_ext_call(key) and singleton(key.args[0])) or raw_closure(fkey, '_Properties', 'prime')
         want = f'{p_map}[{p_ctx}.extension([{x}], raw=True)]'
     R.check(ok, 'LABELLING', func, look[0], f'{slot}: own concept looked up by its extent', want, src(key))
     # append-or-create
